@@ -540,7 +540,30 @@ def _incomplete_only(node, tgt):
                for a in conditions_at(node))
 
 
+def _no_delete_of_complete_entries(ctx):
+    """independent of the writer's branch structure: a `del` in save_hdf5
+    removes only an entry without the completeness marker"""
+    fn = ctx.repo.mod("rate.io").func("save_hdf5")
+    for n in walk_no_nested(fn, False):
+        if isinstance(n, ast.Delete):
+            for t in n.targets:
+                tgt = norm(t)
+                ctx.check(_incomplete_only(n, tgt), n,
+                          f"delete {tgt} only when it is incomplete",
+                          "save_hdf5 deletes an entry from the container "
+                          "that may be complete: the stored rating of that "
+                          "curve is lost if anything after the delete "
+                          "fails, and storing the same curve again "
+                          "replaces more than the user fields")
+        if isinstance(n, ast.Call) and isinstance(n.func, ast.Attribute) \
+                and n.func.attr in ("pop", "clear") and norm(
+                    n.func.value) in ("ana", "data", "h5"):
+            ctx.fail(n, f"{norm(n)[:40]}",
+                     "save_hdf5 removes entries from the container")
+
+
 def r2_append_only(ctx):
+    _no_delete_of_complete_entries(ctx)
     W = Writer(ctx.repo)
     muts = _h5_mutations(W.fn, W)
     ctx.floor("HDF5 mutations in save_hdf5", len(muts), 10)
@@ -550,13 +573,7 @@ def r2_append_only(ctx):
                            for x in ast.walk(s))
     for node, kind, tgt, key in muts:
         if kind == "delete":
-            # only a group that the readers skip anyway (completeness
-            # marker absent) may be removed
-            ok = _incomplete_only(node, tgt)
-            ctx.check(ok, node, f"delete {tgt} only when it is incomplete",
-                      "save_hdf5 deletes an entry from the container that "
-                      "may be complete (stored ratings are lost)")
-            continue
+            continue      # judged by _no_delete_of_complete_entries
         if in_exists(node):
             ctx.fail(node, f"{kind} on {tgt} in the existing-entry branch",
                      "an already stored entry is modified beyond the user "
@@ -885,6 +902,48 @@ def r5_lookup_key(ctx):
                       "hdf5_rated returns the wrong attribute")
 
 
+def r6_extracted_names(ctx):
+    """load_hdf5 restores every embedded measurement file into one
+    temporary directory: the file name must contain the dataset key (the
+    file hash), otherwise two measurements with the same base name
+    overwrite each other and the curves of the first are lost."""
+    ld = ctx.repo.mod("rate.io").func("load_hdf5")
+    from ..symres import Resolver
+    R = Resolver(ld)
+    n = 0
+    for lp in walk_no_nested(ld, False):
+        if not isinstance(lp, ast.For):
+            continue
+        outs = [c for st in lp.body for c in ast.walk(st)
+                if isinstance(c, ast.Call) and isinstance(
+                    c.func, ast.Attribute) and c.func.attr in (
+                        "tofile", "write_bytes", "write") and c.args]
+        if not outs or not isinstance(lp.target, ast.Name):
+            continue
+        key = lp.target.id
+        for c in outs:
+            n += 1
+            dest = c.args[0] if c.func.attr == "tofile" else c.func.value
+            txt = R.text(dest)
+            # the key as a component of the name - not as the index
+            # through which the stored attributes are looked up
+            res_ = R.resolve(dest)
+            in_index = {id(x) for sub in ast.walk(res_)
+                        if isinstance(sub, ast.Subscript)
+                        for x in ast.walk(sub.slice)}
+            names = {x.id for x in ast.walk(res_)
+                     if isinstance(x, ast.Name) and id(x) not in in_index}
+            ctx.check(key in names, c,
+                      f"extracted file name depends on the dataset key "
+                      f"`{key}`",
+                      f"load_hdf5 writes every embedded measurement to "
+                      f"`{txt[:70]}`, which does not contain the dataset "
+                      f"key `{key}`: two stored files with the same base "
+                      "name overwrite each other and the ratings of the "
+                      "first become unreadable")
+    ctx.floor("extraction sites in load_hdf5", n, 1)
+
+
 RULES = [
     ("C16-R1", "writer and reader tables agree (datasets, attributes, "
      "inverse encodings)", r1_tables_agree),
@@ -895,4 +954,6 @@ RULES = [
     ("C16-R4", "no crash window: completeness markers are written after "
      "everything the readers require", r4_crash_window),
     ("C16-R5", "already-rated lookup uses the writer's key", r5_lookup_key),
+    ("C16-R6", "embedded measurement files are extracted under names that "
+     "are unique per stored file", r6_extracted_names),
 ]
